@@ -154,7 +154,7 @@ extern MPT_INTERFACE(metatype) *mpt_iterator_values(const char *val)
 		return 0;
 	}
 	/* convert first value */
-	if ((adv = mpt_cdouble(&flt, val, 0)) <= 0) {
+	if ((adv = mpt_cdouble(&flt, val, 0)) <= 0 || isnan(flt)) {
 		errno = EINVAL;
 		return 0;
 	}
